@@ -129,14 +129,33 @@ def io_reader_table(repo: Repo):
         rets = [n for n in ast.walk(fi.node) if isinstance(n, ast.Return) and n.value is not None]
         rec = {"fi": fi}
         if len(rets) == 1 and isinstance(rets[0].value, ast.Call):
-            c = rets[0].value
+            from .astutil import inline_self_methods
+            c = inline_self_methods(ci, rets[0].value)        # the loader call may sit in a small shared helper of the class
+            if not isinstance(c, ast.Call):
+                c = rets[0].value
             d = repo.dotted_of(fi.module, c.func) or ""
             rec["family"] = LOAD_FAMILY.get(d)
             rec["dotted"] = d
             params = fi.params()[1:]
             la = lib_args(d, c)
             rec["path_ok"] = len(la) >= 1 and isinstance(la[0], ast.Name) and la[0].id in params
-            rec["extra"] = [k.arg for k in c.keywords if k.arg not in LIB_PARAMS.get(d, [])[:1]] + [src(a) for a in la[1:]]
+            # options of the loader: content-neutral ones are accepted, a WRITABLE memory map hands the caller the file itself
+            extra, unknown = [], []
+            for k in c.keywords:
+                if k.arg in LIB_PARAMS.get(d, [])[:1]:
+                    continue
+                v_ = k.value.value if isinstance(k.value, ast.Constant) else "?"
+                if k.arg == "mmap_mode":
+                    if v_ in ("r+", "w+"):
+                        extra.append(f"mmap_mode={v_!r}: the returned array IS the file, an in-place operation of any consumer rewrites what was stored")
+                    elif v_ not in (None, "r", "c"):
+                        unknown.append(f"mmap_mode={src(k.value)}")
+                elif k.arg in ("allow_pickle", "fix_imports", "encoding", "max_header_size"):
+                    continue
+                else:
+                    unknown.append(k.arg)
+            rec["extra"] = extra + [src(a) for a in la[1:]]
+            rec["unknown"] = unknown
             rec["direct"] = True
             rec["call"] = c
         if len(rets) == 1 and rec.get("family") is None:
